@@ -141,6 +141,7 @@ def assemble(soc):
                 dec.add(kb, name=None if c.get("name") is None else f"{c['name']}{uid[0]}_{id(kb) % 97}")
             except ValueError:
                 pass
+            list(dec.bus.memory_map.all_resources())      # software may list a map while it is being assembled
         sub("cdec", dec)
         return dec.bus
 
@@ -176,6 +177,8 @@ def assemble(soc):
             kinds[id(b.memory_map)] = kind
         except ValueError:
             pass
+        list(root.bus.memory_map.all_resources())
+        root.bus.memory_map.decode_address(0)
     sub("root", root)
     out = Built()
     out.m, out.root, out.kinds, out.mem_writable = m, root, kinds, mem_writable
